@@ -162,17 +162,26 @@ pub fn synth(spec: &FrameSpec, dict: Option<&Dict>, over_long: bool) -> SynthOut
     let mut content: Vec<u8> = vec![];
     let mut exec: Vec<Option<ExecBlock>> = vec![];
     let mut max_block_regen = 0usize;
+    // raw / RLE blocks: legal sizes only - unless an over-long frame is asked for: then whatever the
+    // 21-bit Block_Size field can say (an RLE block of 2 MiB - 1 is four bytes of input)
+    let plain_cap = if over_long { (1usize << 21) - 1 } else { block_max.min(BLOCK_MAX) };
     let mut invalid = false;
     for b in &spec.blocks {
         match b {
             BlockSpec::Raw { data } => {
-                let n = data.len().min(block_max.min(BLOCK_MAX));
+                let n = data.len().min(plain_cap);
                 content.extend_from_slice(&data[..n]);
+                if over_long {
+                    max_block_regen = max_block_regen.max(n);
+                }
                 exec.push(None);
             }
             BlockSpec::Rle { byte, len } => {
-                let n = (*len as usize).min(block_max.min(BLOCK_MAX));
+                let n = (*len as usize).min(plain_cap);
                 content.resize(content.len() + n, *byte);
+                if over_long {
+                    max_block_regen = max_block_regen.max(n);
+                }
                 exec.push(None);
             }
             BlockSpec::Comp(c) => {
@@ -345,12 +354,12 @@ pub fn synth(spec: &FrameSpec, dict: Option<&Dict>, over_long: bool) -> SynthOut
         let last = i + 1 == nblocks;
         match b {
             BlockSpec::Raw { data } => {
-                let n = data.len().min(block_max.min(BLOCK_MAX));
+                let n = data.len().min(plain_cap);
                 push_block_header(&mut out, last, 0, n);
                 out.extend_from_slice(&data[..n]);
             }
             BlockSpec::Rle { byte, len } => {
-                let n = (*len as usize).min(block_max.min(BLOCK_MAX));
+                let n = (*len as usize).min(plain_cap);
                 push_block_header(&mut out, last, 1, n);
                 out.push(*byte);
             }
